@@ -8,7 +8,12 @@
        -> as e, with the k nested variables bound as given (every other variable undefined)
    x <pattern> <k> (<name> <U | V<hex>>)*k -> the pattern as bmake expands it: S<hex> | N (outside the fragment)
    z <pattern> <word>*   -> "<first index whose word matches and is a number> <first index ... and is zero>" (-1 = none)
-   p <text> -> 1 if the text is inside the fragment the spec reads, else 0 *)
+   p <text> -> 1 if the text is inside the fragment the spec reads, else 0
+   f <hacks 0|1> <nl> <fline>*nl <line> <nv> (<name> <flags8>)* <nm> (<pattern> <code>)* <tree>
+       fline := I<hexpath> | A<hexname> | U<hexname> | O0 | O1 | C | X     (Spec/PrefsFile.v fline; flag 5 of flags8 is ignored:
+       the model computes vars.IsDefined and SeenPrefs from the lines, Model/CondFile.v check_file_line)
+       -> <model SeenPrefs> <spec su_prefs> <spec conditional_prefs_include> <spec: first variable in su_undef> then as w
+   l <path> -> "<Model loads_prefs> <Spec really_loads_prefs> <hex path_base>" *)
 let flag s i = s.[i] = '1'
 let rec take_tree (toks : string list) : mkcond * string list =
   match toks with
@@ -37,9 +42,21 @@ let rec take_pairs n toks =
 let kind_name k = match k with KWord -> "word" | KYesNo -> "yesno" | KMatch -> "match" | KAnd -> "and"
 let tri_letter t = match t with Some TTrue -> "T" | Some TFalse -> "F" | Some TMalformed -> "M" | None -> "X"
 let value_of tok = if tok = "U" then None else Some (bytes_of_hex (String.sub tok 1 (String.length tok - 1)))
-let handle (args : string list) : string =
-  match args with
-  | "w" :: prefs :: line :: nv :: rest ->
+let fline_of tok =
+  if tok = "C" then FClose else if tok = "X" then FOther
+  else if tok = "O0" then FOpen false else if tok = "O1" then FOpen true
+  else match tok.[0] with
+    | 'I' -> FInclude (bytes_of_hex (String.sub tok 1 (String.length tok - 1)))
+    | 'A' -> FAssign (bytes_of_hex (String.sub tok 1 (String.length tok - 1)))
+    | 'U' -> FUndef (bytes_of_hex (String.sub tok 1 (String.length tok - 1)))
+    | _ -> failwith "bad fline"
+let rec take_n n toks =
+  if n = 0 then ([], toks) else
+    match toks with
+    | a :: r -> let (xs, r2) = take_n (n - 1) r in (a :: xs, r2)
+    | [] -> failwith "bad count"
+(* the common part of w and f: run is the model function applied to (var_of, mmn_of, line, tree) *)
+let check_request run line nv rest =
     let (vars, rest) = take_pairs (int_of_string nv) rest in
     let (nm, rest) = (match rest with n :: r -> (int_of_string n, r) | [] -> failwith "nm") in
     let (mmns, rest) = take_pairs nm rest in
@@ -59,8 +76,7 @@ let handle (args : string list) : string =
       (match List.assoc_opt pat mmns with
        | Some "0" -> MmnErr | Some "1" -> MmnNo | Some "2" -> MmnYes
        | _ -> MmnErr) in
-    let cx = { cx_var = var_of; cx_seen_prefs = (prefs = "1"); cx_mmn = mmn_of } in
-    let (nl, applied) = check_line cx (bytes_of_hex line) tree in
+    let (nl, applied) = run var_of mmn_of (bytes_of_hex line) tree in
     let offered = List.length applied in
     let one rw =
       let ast = (match rw.rw_from_c, rw.rw_to_c with
@@ -69,6 +85,26 @@ let handle (args : string list) : string =
           | _, _ -> "2") in
       kind_name rw.rw_kind ^ " " ^ hex_of_bytes rw.rw_from ^ " " ^ hex_of_bytes rw.rw_to ^ " " ^ ast in
     String.concat " " ([hex_of_bytes nl; string_of_int offered; string_of_int (List.length applied)] @ List.map one applied)
+let b01 b = if b then "1" else "0"
+let handle (args : string list) : string =
+  match args with
+  | "w" :: prefs :: line :: nv :: rest ->
+    check_request (fun var_of mmn_of l tree ->
+        check_line { cx_var = var_of; cx_seen_prefs = (prefs = "1"); cx_mmn = mmn_of } l tree) line nv rest
+  | "f" :: hacks :: nl :: rest ->
+    let (ltoks, rest) = take_n (int_of_string nl) rest in
+    let pre = List.map fline_of ltoks in
+    (match rest with
+     | line :: nv :: rest ->
+       let st = scan (init_state (hacks = "1")) pre in
+       b01 st.fs_seen_prefs ^ " " ^ b01 (sure_after pre).su_prefs ^ " "
+       ^ b01 (conditional_prefs_include { su_prefs = false; su_assigned = []; su_open = []; su_undef = [] } pre) ^ " "
+       ^ (match rest with name :: _ when nv <> "0" -> b01 (in_strs (bytes_of_hex name) (sure_after pre).su_undef) | _ -> "0") ^ " "
+       ^ check_request (fun var_of mmn_of l tree -> check_file_line var_of mmn_of (hacks = "1") pre l tree) line nv rest
+     | _ -> "ERR:bad f request")
+  | ["l"; path] ->
+    let p = bytes_of_hex path in
+    b01 (loads_prefs p) ^ " " ^ b01 (really_loads_prefs p) ^ " " ^ hex_of_bytes (path_base p)
   | "e" :: orig :: nw :: name :: values ->
     let o = bytes_of_hex orig and n = bytes_of_hex nw and nm = bytes_of_hex name in
     String.concat " " (List.map (fun tok ->
